@@ -729,6 +729,8 @@ pub fn run_c06(w: &mut W) {
         // conformant packets delivered to each parser, with what each call returned (for the
         // split-invariance epilogue)
         let mut delivered: Vec<Vec<(Vec<u8>, String)>> = vec![vec![]; np];
+        // parsers that received a cache-changing packet which cannot be part of a chained buffer
+        let mut no_epilogue: Vec<bool> = vec![false; np];
         for _ in 0..nops {
             let pi = rng.usize(np);
             let before: Vec<Snap> = sut.parsers.iter().map(snap).collect();
@@ -870,6 +872,35 @@ pub fn run_c06(w: &mut W) {
                 shape.push_str("G;");
                 w.rep.count("noop.garbage", 1);
                 verdict = if snap(&sut.parsers[pi]) != before[pi] { Err(div("cache/garbage", "changed", "caches changed by input of an unknown version".into())) } else { Ok(()) };
+            } else if rng.chance(1, 4) && !(pi == np - 1 && restricted.as_ref().map(|s| !s.contains(&9)).unwrap_or(false)) {
+                // one V9 packet: template flowset(s) - often redefining cached ids -, then a data
+                // flowset for an id the parser holds no template for. The packet is an error, but
+                // the template records were received: they are the latest definitions from now on
+                // (what an error path "restores" must not be an older definition).
+                let mut trial = exs[pi].clone();
+                let n = 1 + rng.usize(2);
+                let mut fs: Vec<V9FlowSet> = vec![];
+                if rng.chance(1, 2) {
+                    let templates: Vec<V9Tmpl> = (0..n).map(|_| trial.v9_new_template(&mut rng, &cfg, &w.pools)).collect();
+                    fs.push(V9FlowSet::Template { templates, padding: vec![] });
+                } else {
+                    let templates: Vec<V9OptTmpl> = (0..n).map(|_| trial.v9_new_opt_template(&mut rng, &cfg, &w.pools)).collect();
+                    let len: usize = templates.iter().map(|t| t.wire().len()).sum();
+                    fs.push(V9FlowSet::OptionsTemplate { templates, padding: vec![0u8; (4 - len % 4) % 4] });
+                }
+                let nb = 4 + rng.usize(12);
+                fs.push(V9FlowSet::Orphan { id: 60000 + rng.below(5000) as u16, body: rng.bytes(nb) });
+                let pkt = trial.v9_wrap(&mut rng, &cfg, fs);
+                let res = sut.parse(pi, &pkt.wire());
+                exs[pi] = trial;
+                no_epilogue[pi] = true;
+                shape.push_str("E;");
+                w.rep.count("template_then_unknown_data_packets", 1);
+                verdict = match res.as_slice() {
+                    [NetflowPacket::Error(_)] => Ok(()),
+                    r => Err(div("cache/template-then-unknown-data", "elements", format!("V9 packet with data for an unknown template returned {:?}", r.iter().map(kind).collect::<Vec<_>>()))),
+                };
+                // cache_matches_model below: the model holds the new definitions
             } else if rng.chance(1, 3) && !(pi == np - 1 && restricted.as_ref().map(|s| !s.contains(&9)).unwrap_or(false)) {
                 // a V9 template / options-template flowset whose length is consistent and that holds
                 // one or more complete records followed by a record that does not fit in what is left:
@@ -974,7 +1005,7 @@ pub fn run_c06(w: &mut W) {
         // inputs in between changed nothing, so they can be left out)
         if ok {
             for pi in 0..np {
-                if pi == np - 1 && restricted.is_some() {
+                if (pi == np - 1 && restricted.is_some()) || no_epilogue[pi] {
                     continue;
                 }
                 let total: usize = delivered[pi].iter().map(|d| d.0.len()).sum();
@@ -1581,6 +1612,24 @@ pub fn run_c07(w: &mut W) {
                     fs.push(d.clone());
                 }
             }
+            // one packet in four also redefines a known template in front of the orphan: what the
+            // caches hold afterwards is what they hold after the same packet without the orphan
+            let mut control: Option<Snap> = None;
+            if !reserved_v9 && rng.chance(1, 4) && !ex.v9_t.is_empty() {
+                let ids: Vec<u16> = ex.v9_t.keys().cloned().collect();
+                let id = *rng.pick(&ids);
+                let mut scratch = ex.clone();
+                let mut t = scratch.v9_new_template(&mut rng, &cfg, &w.pools);
+                t.id = id;
+                let tf = V9FlowSet::Template { templates: vec![t], padding: vec![] };
+                let mut c = clone_parser(&sut.parsers[0]);
+                let cp = shadow.v9_wrap(&mut rng, &cfg, vec![tf.clone()]);
+                c.parse_bytes(&cp.wire());
+                control = Some(snap(&c));
+                fs.insert(0, tf);
+                w.rep.count("orphan_packets_that_also_redefine_a_template", 1);
+            }
+            let before = control.unwrap_or(before);
             let mut pkt = shadow.v9_wrap(&mut rng, &cfg, fs);
             if reserved_v9 {
                 w.rep.count("orphans_with_reserved_flowset_id_and_packet_shaped_body", 1);
